@@ -113,11 +113,27 @@ class Sched:
             todo = self.roots
         else:
             todo = self.roots[-2:] + (self.rnd.sample(self.roots, min(3, len(self.roots))) if self.roots else [])
+        if self.rnd.random() < 0.2:
+            self.nested_snapshots()
         for root, model in todo:
             self.read_root(root, model, "fresh")
             self.read_root(root, model, "at_root")
             if len(model) >= 2:
                 self.ctx.shape(("root", RefTrie(model).shape()))
+
+    def nested_snapshots(self):
+        """two at_root snapshots of the same trie alive at the same time: each keeps showing
+        its own root"""
+        if len(self.roots) < 2:
+            return
+        (r1, m1), (r2, m2) = self.rnd.sample(self.roots, 2)
+        opener = self.tries[self.rnd.randrange(len(self.tries))]
+        with opener.at_root(r1) as s1:
+            with opener.at_root(r2) as s2:
+                self._compare(s2, r2, m2, "inner at_root(old_root) of two nested snapshots")
+                self._compare(s1, r1, m1, "outer at_root(old_root) while a second snapshot is open")
+            self._compare(s1, r1, m1, "outer at_root(old_root) after the inner snapshot was closed")
+        self.ctx.count("nested_snapshots")
 
     def check_trace(self):
         tv = self.db.pending_trace_violation
